@@ -479,9 +479,10 @@ where
 /// Cache key for uniquely identifying a request.
 #[derive(Ord, PartialOrd, Eq, PartialEq, Clone)]
 pub struct RequestCacheKey<Endpoint: Ord + Clone> {
-    /// Request type as an integer to make it easy to derive Ord.
+    /// Request code as an integer to make it easy to derive Ord.
     request_type_ord: u8,
-    path: Vec<String>,
+    /// Uri-Path segments as they are on the wire (they need not be UTF-8).
+    path: Vec<Vec<u8>>,
     requester: Option<Endpoint>,
 }
 
@@ -490,10 +491,12 @@ impl<Endpoint: Ord + Clone> From<&CoapRequest<Endpoint>>
 {
     fn from(request: &CoapRequest<Endpoint>) -> Self {
         Self {
-            request_type_ord: u8::from(MessageClass::Request(
-                *request.get_method(),
-            )),
-            path: request.get_path_as_vec().unwrap_or_default(),
+            request_type_ord: u8::from(request.message.header.code),
+            path: request
+                .message
+                .get_option(CoapOption::UriPath)
+                .map(|segments| segments.iter().cloned().collect())
+                .unwrap_or_default(),
             requester: request.source.clone(),
         }
     }
